@@ -102,3 +102,20 @@ package convert
 //@     may_panic
 //@     requires[C09] map_input: (is_map_ty (vty in))
 //@     ensures (=> (= result.1 nil.Any) (and (wf_deep result.0) (is_map_ty (vty result.0))))
+//
+// prepareUnknownResult (C08: "for unknown input returns an unknown of the target type whose refinements
+// admit the conversion of every admitted input"), collection-to-collection case: a conversion keeps the
+// length, except that members of a set may coalesce (never to nothing). So the unknown result must admit
+// every length the source admits - and, for a set target, every length from 1 up to it.
+//@ func convert.prepareUnknownResult
+//@   tags C08
+//@   requires (and (rng_ok (vr_ty sourceRange) (vr_raw sourceRange)) (wf_ty (vr_ty sourceRange)) (wf_ty targetTy) (not (has_opt targetTy)))
+//@   let st (vr_ty sourceRange)
+//@   let w (vr_raw sourceRange)
+//@   let lo (rfn_len_lo w)
+//@   let hi (rfn_len_hi w)
+//@   let rw (rfn_of result)
+//@   panics_may true
+//@   ensures[C08] type: (= (vty result) targetTy)
+//@   ensures[C08] lengths: (=> (and (is_coll_ty st) (is_coll_ty targetTy) (not (is_known result))) (and (<= (rfn_len_lo rw) (ite (is_set_ty targetTy) (ite (> lo 0) 1 0) lo)) (>= (rfn_len_hi rw) hi)))
+//@   ensures[C08] notnull_only_if_source: (=> (and (not (is_known result)) (= (rfn_null rw) 70)) (= (rfn_null w) 70))
